@@ -29,8 +29,11 @@ META = {
             "node/global_management_segment.rs): the directories config.global.node.directory and "
             "config.global.service.directory below the root path and the global management segment "
             "(<prefix>…<global_mgmt_suffix>); everything else left behind is a violation. The wait-set guard borrows "
-            "listener and wait set (Rust lifetimes), only orders respecting the borrow exist. Quick samples the "
-            "8-object graphs (60 TLC -simulate orders per pattern and variant), thorough runs all 8! on local.",
+            "listener and wait set (Rust lifetimes), only orders respecting the borrow exist. Quick: all "
+            "permutations of pubsub6/event6 on local and ipc + 16 TLC -simulate orders per 7/8-object pattern and "
+            "variant (384); thorough: all 7!/8! of pubsub7, pubsub8, event8 on local, 15 000 sampled for the other "
+            "8-object graphs on local, 5 000 each for ipc and the two thread-safe variants. One known finding "
+            "(left:node-directory) is re-observed on the current tree.",
     "design_ref": "DESIGN.md 5 C17, 2.2, 3.4",
     "replay": True,
 }
@@ -122,7 +125,7 @@ def execute(ctx, plan, name):
     out = ctx.path("traces", f"{name}.ndjson")
     root = ctx.path("dom", "x")[:-2]
     _, so, _ = vp.run_driver("drv-droporder", ["run", "--plan", pf, "--root", root, "--tag", tag(ctx), "--out", out,
-                                               "--jobs", 12], timeout=6000)
+                                               "--jobs", 12 if ctx.quick else 14], timeout=14000)
     return out, vp.last_json_line(so)
 
 
@@ -270,9 +273,10 @@ def _run(ctx):
         by_perm = {}
         for o in os_:
             by_perm.setdefault(tuple(s["o"] for s in o), []).append(o)
-        chosen = [rng.choice(v) for _, v in sorted(by_perm.items())] if quick else os_
+        chosen = [rng.choice(v) for _, v in sorted(by_perm.items())]
         for var in (("local", "ipc") if quick else VARIANTS):
-            plan += [{"pat": pattern, "var": var, "order": o} for o in chosen]
+            full = (not quick) and var in ("local", "ipc")       # thorough: send AND drop variant of every permutation
+            plan += [{"pat": pattern, "var": var, "order": o} for o in (os_ if full else chosen)]
     shapes = ["pubsub7", "pubsub8", "event8", "reqres8"]
     if quick:
         n8 = 16
@@ -296,18 +300,33 @@ def _run(ctx):
         vp.record_tlc(ctx, f"DropOrderGen[{shapes} all orders]", res)
         vp.tlc_require_ok(res, "GENALL8")
         all8 = orders_of(res)
+
+        def perms_of(src):
+            """one order per permutation; whether the loaned sample / response is sent is drawn (seeded)"""
+            ps = {}
+            for o in src:
+                ps.setdefault(tuple(s["o"] for s in o), []).append(o)
+            return [rng.choice(v) for _, v in sorted(ps.items())]
+
+        per_pattern = {}
         for pattern in P8:
             src = all8["pubsub8" if pattern in RENAME else pattern]
             if pattern in RENAME:
                 src = list({tuple(s["o"] for s in rename(o, pattern)): rename(o, pattern) for o in src}.values())
             gen_counts[pattern + ":all"] = len(src)
-            # all 8! on local; the loaned sample / response is sent in a seeded half of them
-            perms = {}
-            for o in src:
-                perms.setdefault(tuple(s["o"] for s in o), []).append(o)
-            plan += [{"pat": pattern, "var": "local", "order": rng.choice(v)} for _, v in sorted(perms.items())]
-            for var in ("ipc", "ipc_threadsafe", "local_threadsafe"):
-                plan += [{"pat": pattern, "var": var, "order": o} for o in rng.sample(src, min(len(src), 1000))]
+            per_pattern[pattern] = src
+        # local: ALL permutations of pubsub7 (7!), pubsub8 and event8 (8!), 10 000 / 2 500 sampled for the others
+        for pattern, n in (("pubsub7", None), ("pubsub8", None), ("event8", None), ("reqres8", 10000),
+                           ("reqres8n", 2500), ("bb8", 2500)):
+            ps = perms_of(per_pattern[pattern])
+            if n is not None:
+                ps = rng.sample(ps, min(n, len(ps)))
+            plan += [{"pat": pattern, "var": "local", "order": o} for o in ps]
+        # ipc and the thread-safe variants: 5 000 sampled each, spread over the patterns
+        for var in ("ipc", "ipc_threadsafe", "local_threadsafe"):
+            for pattern in P8:
+                src = per_pattern[pattern]
+                plan += [{"pat": pattern, "var": var, "order": o} for o in rng.sample(src, min(len(src), 5000 // len(P8)))]
     ctx.coverage["orders_generated_by_tlc"] = gen_counts
 
     # ---- 3. execution: one child process per order
